@@ -145,35 +145,29 @@ pub fn swap_input(
     require_open(state.open)?;
     require_margin_engine(info.sender, config.margin_engine)?;
 
-    let base_asset_amount: Uint128 = if !quote_asset_amount.is_zero() {
-        let base_asset_amount = get_input_price_with_reserves(
-            deps.as_ref(),
-            &direction,
-            quote_asset_amount,
-            state.quote_asset_reserve,
-            state.base_asset_reserve,
-        )?;
+    // a zero quote amount exchanges a zero base amount; the limit applies to it like to any other
+    let base_asset_amount: Uint128 = get_input_price_with_reserves(
+        deps.as_ref(),
+        &direction,
+        quote_asset_amount,
+        state.quote_asset_reserve,
+        state.base_asset_reserve,
+    )?;
 
-        // If AddToAmm, exchanged base amount should be more than base_asset_limit,
-        // otherwise(RemoveFromAmm), exchanged base amount should be less than base_asset_limit.
-        // In RemoveFromAmm case, more position means more debt so should not be larger than base_asset_limit
-        if !base_asset_limit.is_zero() {
-            if direction == Direction::AddToAmm && base_asset_amount < base_asset_limit {
-                return Err(StdError::generic_err(
-                    "Less than minimum base asset amount limit",
-                ));
-            } else if direction == Direction::RemoveFromAmm && base_asset_amount > base_asset_limit
-            {
-                return Err(StdError::generic_err(
-                    "Greater than maximum base asset amount limit",
-                ));
-            }
+    // If AddToAmm, exchanged base amount should be more than base_asset_limit,
+    // otherwise(RemoveFromAmm), exchanged base amount should be less than base_asset_limit.
+    // In RemoveFromAmm case, more position means more debt so should not be larger than base_asset_limit
+    if !base_asset_limit.is_zero() {
+        if direction == Direction::AddToAmm && base_asset_amount < base_asset_limit {
+            return Err(StdError::generic_err(
+                "Less than minimum base asset amount limit",
+            ));
+        } else if direction == Direction::RemoveFromAmm && base_asset_amount > base_asset_limit {
+            return Err(StdError::generic_err(
+                "Greater than maximum base asset amount limit",
+            ));
         }
-
-        base_asset_amount
-    } else {
-        Uint128::zero()
-    };
+    }
 
     let response = update_reserve(
         deps.storage,
@@ -214,38 +208,30 @@ pub fn swap_output(
         Direction::RemoveFromAmm => Direction::AddToAmm,
     };
 
-    let quote_asset_amount: Uint128 = if !base_asset_amount.is_zero() {
-        let quote_asset_amount = get_output_price_with_reserves(
-            deps.as_ref(),
-            &direction,
-            base_asset_amount,
-            state.quote_asset_reserve,
-            state.base_asset_reserve,
-        )?;
+    // a zero base amount exchanges a zero quote amount; the limit applies to it like to any other
+    let quote_asset_amount: Uint128 = get_output_price_with_reserves(
+        deps.as_ref(),
+        &direction,
+        base_asset_amount,
+        state.quote_asset_reserve,
+        state.base_asset_reserve,
+    )?;
 
-        // If AddToAmm, exchanged base amount should be more than quote_asset_limit,
-        // otherwise(RemoveFromAmm), exchanged base amount should be less than quote_asset_limit.
-        // In RemoveFromAmm case, more position means more debt so should not be larger than quote_asset_limit
-        if !quote_asset_limit.is_zero() {
-            if update_direction == Direction::RemoveFromAmm
-                && quote_asset_amount < quote_asset_limit
-            {
-                return Err(StdError::generic_err(
-                    "Less than minimum quote asset amount limit",
-                ));
-            } else if update_direction == Direction::AddToAmm
-                && quote_asset_amount > quote_asset_limit
-            {
-                return Err(StdError::generic_err(
-                    "Greater than maximum quote asset amount limit",
-                ));
-            }
+    // If AddToAmm, exchanged base amount should be more than quote_asset_limit,
+    // otherwise(RemoveFromAmm), exchanged base amount should be less than quote_asset_limit.
+    // In RemoveFromAmm case, more position means more debt so should not be larger than quote_asset_limit
+    if !quote_asset_limit.is_zero() {
+        if update_direction == Direction::RemoveFromAmm && quote_asset_amount < quote_asset_limit {
+            return Err(StdError::generic_err(
+                "Less than minimum quote asset amount limit",
+            ));
+        } else if update_direction == Direction::AddToAmm && quote_asset_amount > quote_asset_limit
+        {
+            return Err(StdError::generic_err(
+                "Greater than maximum quote asset amount limit",
+            ));
         }
-
-        quote_asset_amount
-    } else {
-        Uint128::zero()
-    };
+    }
 
     let response = update_reserve(
         deps.storage,
